@@ -1,5 +1,6 @@
 (* C09 — parsing ignores case, separator choice and the order of unordered parts. *)
-From UL Require Import Bytes Subtags LangId Grammar LangIdSpec SplitProofs LangIdProofs CanonProofs.
+From UL Require Import Bytes Subtags LangId Ext Grammar LangIdSpec LocaleSpec AbstractLocale SortProofs SplitProofs LangIdProofs CanonProofs KvProofs FoldProofs LocaleSpecProofs.
+From Coq Require Import Permutation.
 
 (* any two byte strings that agree after case folding and '_' -> '-' give the same result: both fail
    (with the same error) or both succeed with the same value - for ALL strings, accepted or not *)
@@ -26,6 +27,34 @@ Proof.
   rewrite A, B, (spec_variants_same_set _ _ Hset). reflexivity.
 Qed.
 
+(* the same for Locale and ExtensionsMap: letter case and '_' versus '-' never matter, for ALL strings *)
+Theorem C09_fold_locale : forall s s', map fold_byte s = map fold_byte s' -> locale_from_bytes s = locale_from_bytes s'.
+Proof. exact locale_fold_invariant. Qed.
+Theorem C09_fold_extmap : forall s s', map fold_byte s = map fold_byte s' -> extmap_from_bytes s = extmap_from_bytes s'.
+Proof. exact extmap_fold_invariant. Qed.
+(* order / repetition of -u- attributes: only the set matters *)
+Theorem C09_attributes : forall a1 a2, (forall y, In y (map lower a1) <-> In y (map lower a2)) ->
+  dedup (sort (map lower a1)) = dedup (sort (map lower a2)).
+Proof. intros a1 a2 H. exact (canon_same_set _ _ H). Qed.
+(* order of -u- keywords / -t- fields with distinct keys: only the set of (key, values) pairs matters *)
+Theorem C09_keywords : forall m m', kuniq m -> Permutation m m' -> kv_sort m = kv_sort m'.
+Proof.
+  intros m m' Hu P. assert (Hu' : kuniq m') by (unfold kuniq, keys in *; eapply Permutation_NoDup; [apply Permutation_map; exact P|exact Hu]).
+  apply ksorted_unique; [apply kv_sort_ksorted; exact Hu|apply kv_sort_ksorted; exact Hu'|].
+  intros x. rewrite !kv_sort_In. split; intros H; [eapply Permutation_in; [exact P|exact H]|eapply Permutation_in; [apply Permutation_sym; exact P|exact H]].
+Qed.
+(* two strictly well-formed spellings to which the grammar assigns the same value parse to equal values
+   (in particular: -u- before -t- or after, permuted keywords / tfields, permuted attributes/variants) *)
+Theorem C09_same_reading : forall s s' v,
+  spec_locale_zone (split s) = MustAccept v -> spec_locale_zone (split s') = MustAccept v ->
+  locale_from_bytes s = locale_from_bytes s'.
+Proof. intros s s' v H H'. rewrite (locale_complete s v H), (locale_complete s' v H'). reflexivity. Qed.
+
+Print Assumptions C09_fold_locale.
+Print Assumptions C09_fold_extmap.
+Print Assumptions C09_attributes.
+Print Assumptions C09_keywords.
+Print Assumptions C09_same_reading.
 Print Assumptions C09_fold_langid.
 Print Assumptions C09_variants.
 Print Assumptions C09_variants_whole.
